@@ -1,0 +1,81 @@
+//go:build verif
+
+package store
+
+// Machine-checked contracts for the govc verification-condition generator
+// (see /verif/DESIGN.md).  Comments only; compiled only with the build tag "verif".
+// Inside this package a store.Cursor is modelled by its only implementation here, *InMemory.
+
+//@ macro NSOK(c) = (forall k Int :: 0 <= k && k < len(c.namespaces) ==> c.namespaces[k] != nil && isa(c.namespaces[k]) && c.namespaces[k].node != nil && isNS(c.namespaces[k].node) && c.namespaces[k].parent == c)
+
+//@ extern errors.Is(err, target) (r)
+//@   pure
+//@   ensures err == nil && target != nil ==> !r
+
+// A-PARSER: a Parser touches nothing of the store, and a successful non-end event carries a node
+//@ extern parser.Parser.Pull(p) (n, isEnd, err)
+//@   ensures err == nil && !isEnd ==> n != nil
+
+//@ func initElement() (r)
+//@   property C10 C13 C15
+//@   ensures len(r.namespaces) == 0 && len(r.attributes) == 0 && len(r.nodes) == 0
+//@   ensures fresh(r.namespaces) && fresh(r.attributes) && fresh(r.nodes)
+//@   ensures r.parent == nil && r.pos == 0
+
+//@ func initNonElement() (r)
+//@   property C10 C13 C15
+//@   ensures len(r.namespaces) == 0 && len(r.attributes) == 0 && len(r.nodes) == 0
+//@   ensures r.parent == nil && r.pos == 0
+
+//@ func createNonElement(node, parent, pos) (r)
+//@   property C10 C13 C15
+//@   ensures fresh(r) && r != nil && isa(r) && r.node == node && r.pos == pos && r.parent == parent             @new-node
+//@   ensures len(r.namespaces) == 0 && len(r.attributes) == 0 && len(r.nodes) == 0                             @no-lists
+
+//@ func createElement(node, parent, pos) (r)
+//@   property C10 C13 C15
+//@   ensures fresh(r) && r != nil && isa(r) && r.node == node && r.pos == pos && r.parent == parent             @new-node
+//@   ensures len(r.namespaces) == 0 && len(r.attributes) == 0 && len(r.nodes) == 0                             @empty-lists
+//@   ensures fresh(r.namespaces) && fresh(r.attributes) && fresh(r.nodes)                                      @own-lists
+
+//@ func findNamespace(cursor, prefix) (r)
+//@   property C10 C09 C13 C15
+//@   uses strval nodekinds
+//@   requires cursor != nil && $NSOK(cursor)$
+//@   ensures 0 - 1 <= r && r < len(cursor.namespaces)
+//@   ensures r >= 0 ==> nsPrefix(cursor.namespaces[r].node) == prefix                                          @found
+//@   ensures r == 0 - 1 ==> forall k Int :: 0 <= k && k < len(cursor.namespaces) ==> nsPrefix(cursor.namespaces[k].node) != prefix   @absent
+//@   loop 0
+//@     invariant 0 - 1 <= #k && #k < len(cursor.namespaces) || (len(cursor.namespaces) == 0 && #k == 0 - 1)
+//@     invariant forall k Int :: 0 <= k && k <= #k ==> nsPrefix(cursor.namespaces[k].node) != prefix
+//@     decreases len(cursor.namespaces) - #k
+
+//@ func InMemory.Pos(c) (r)
+//@   property C10 C13 C15
+//@   requires c != nil
+//@   ensures r == c.pos
+
+//@ func InMemory.Node(c) (r)
+//@   property C10 C13 C15
+//@   requires c != nil
+//@   ensures r == c.node
+
+//@ func InMemory.Namespaces(c) (r)
+//@   property C10 C13 C15
+//@   requires c != nil
+//@   ensures r == c.namespaces
+
+//@ func InMemory.Attributes(c) (r)
+//@   property C10 C13 C15
+//@   requires c != nil
+//@   ensures r == c.attributes
+
+//@ func InMemory.Children(c) (r)
+//@   property C10 C13 C15
+//@   requires c != nil
+//@   ensures r == c.nodes
+
+//@ func InMemory.Parent(c) (r)
+//@   property C10 C13 C15
+//@   requires c != nil
+//@   ensures r == c.parent
